@@ -13,7 +13,7 @@ from .. import seams, ops, world as W
 from .common import Out, drop_each, with_, REAL_ALL, STUB_ALL
 
 ID = "C11"
-TIERS = {"quick": {"n": 50000, "chunk": 250}, "thorough": {"n": 600000, "chunk": 1000, "wall_cap": 3000}}
+TIERS = {"quick": {"n": 50000, "chunk": 250}, "thorough": {"n": 2000000, "chunk": 2000, "wall_cap": 3300}}
 RULE = (
     "each scenario is a seeded history (3-8 ops, 1 in 8 up to 25) over {write source (4 source paths incl. same basename in two dirs, 3 fixed contents + fresh ones), "
     "add_named_file (2 names), remove_named_file, restart}; after every op the store is compared with the abstract model through the live and a fresh instance and by a disk walk. "
